@@ -245,7 +245,7 @@ Config generate(DP &dp, const GenOpts &o) {
 		uint8_t cls = 0;
 		static const uint8_t bits[] = {0x01, 0x02, 0x04, 0x10, 0x40, 0x80};
 		for (uint8_t bt : bits)
-			if (dp.chance(100)) cls |= bt;
+			if (dp.chance(bt == 0x80 ? (unsigned) o.interface_chance : 100u)) cls |= bt;
 		if (o.need_track_output && bi == 0) cls |= 0x10;
 		b.uid[0] = cls;
 		int guard = 0;
